@@ -217,7 +217,10 @@ def run(rep, tier):
         Row("no-fall-off", I, r"^panic!unreachable@$", "D3",
             "execution cannot leave the loop: the last instruction is EXIT or JA and both never continue at pc+1",
             cites=("R05.e", "R05.f")),
-        Row("fetch", I, r"^precond:ebpf::get_insn<-", "D3",
+        Row("no-fall-off-lifted", r"^EbpfVmMbuff::execute_program$", r"^precond:" + I + r"<-panic!unreachable@\(", "D3",
+            "the same site seen from the interpreter's caller (the program is an argument of the interpreter): execution cannot leave the loop",
+            cites=("R05.e", "R05.f")),
+        Row("fetch", r".", r"^precond:(ebpf::get_insn|" + I + r"@ebpf::get_insn)<-", "D3",
             "pc < n at the loop head (loop guard and 8 | len) and a wide load is never last", cites=("R05.f", "C06/R06.d")),
         Row("pc-scale", I, r"^Overflow\(Mul\)\(mut<usize>,8\)$", "D3",
             "pc <= n <= 1,000,000 because every control transfer lands inside the program", cites=("R05.f",)),
@@ -235,7 +238,7 @@ def run(rep, tier):
             "assumption A-addr: r10 is not writable by verified programs (C06) and stays within 8 * 65535 bytes of the stack top"),
         Row("usage-present-assert", r"EbpfVmMbuff::execute_program$", r"^panic!debug_assert_eq@\[.*Option<T>::is_some\(&\*arg1<&EbpfVmMbuff<'_>>\.prog\).*Option<T>::is_some\(&\*arg1<&EbpfVmMbuff<'_>>\.stack_usage\).*\]$", "D3",
             "the same invariant as the next row, stated as an assertion: the stack-usage table is Some exactly when the program is (paired writes, C10/R10.d)", cites=("C10/R10.d",)),
-        Row("usage-present", I, r"^unwrap:Option<T>::unwrap\(arg2<Option<&stack::StackUsage>>\)$", "D3",
+        Row("usage-present", r"^(" + I + r"|EbpfVmMbuff::execute_program)$", r"^unwrap:Option<T>::unwrap\((arg2<Option<&stack::StackUsage>>|Option<T>::as_ref\(&\*arg1<&EbpfVmMbuff<'_>>\.stack_usage\))\)$", "D3",
             "the stack-usage table is Some whenever the program is Some (paired writes, C10/R10.d)", cites=("C10/R10.d",)),
         Row("null-ubcheck", I, r"^NullPointerDereference\(\)$", "D4",
             "debug-only UB precondition check on a pointer that passed the bounds check: null lies in no region (C02/R02.c)",
